@@ -19,6 +19,7 @@ RULE = (
     "simultaneously at some quiescent point or >= 3 executions compared; distinct = canonical program shape."
     ' Also: two or three sibling nested graphs running in the same step, some built with with_entrypoint and holding a satisfiable node outside the entry scope.'
     ' Also: whole gated / cyclic / signal programs used as one nested-graph node (depth 1-2) and sibling nested graphs that bind one input name to equal or different values (with a plain reader of that name), compared across node orders.'
+    ' Forced on shard 0: late-closed shared targets (closed gate listed before the router) and early-shared branches, next to the sibling-binding, compose, nested-entry, dotted-key, rewait and signal-loop programs.'
 )
 ASSUMPTIONS = [
     "quiescence is detected exactly from the event loop's ready queue (single loop, no timers, no I/O)",
